@@ -84,6 +84,7 @@ func report(kind string, c any, e *oerr, again func() *oerr) {
 func main() {
 	run = evid.New("C15", "exploration")
 	run.Rule("four finite spaces, each enumerated completely (products of the menus below, every element once, so every case is distinct by construction). " +
+		"(2b) late track behind B-frames: lead rate {8000,44100,48000,90000,1e9} x initial timestamps x S in 0..2 packets that are PTS==DTS then J in 0..3 that are not, the lead's timestamps following real time exactly (10 ms per packet on both clocks), x join rate x offset x join initial timestamp: the joining track belongs at the lead's last PTS + offset whichever packet the implementation anchors on. " +
 		"(1) GlobalDecoder single track: rates {1,7,8000,44100,48000,90000,1e9} x initial RTP timestamps {0,1,2^31-1,2^31,2^32-2,2^32-1} x {all packets PTS==DTS | packets reached by a negative step are not PTS==DTS} x EVERY sequence of exactly D steps over {+1,-1,+1500,-1500,+90000,-90000,+(2^31-1),-(2^31-1),+2^30,+(2^31-2)} with D=4 quick / 6 thorough; the decoder output is checked after every step, so every shorter sequence is covered as a prefix; plus 1 or 2 leading packets that are not PTS==DTS (must be refused) in front of every sequence of 3 steps. (1b) many joiners: for the all-PTS==DTS variant EVERY sequence of EVERY length 0..D is run on its own decoder and followed by 35 more tracks joining that decoder: at each offset {0,1ns,1ms,1s,1h} after the lead's last packet (ascending) one new track per rate; each placement is judged like in (2). " +
 		"(2) late track: lead rate x lead initial timestamp x every lead step sequence of length 0..L (L=3 quick, 4 thorough; 20 ms of virtual time between lead packets) x joining rate (same menu) x virtual offset after the lead's last packet {0,1ns,1ms,1s,1h} x joining initial timestamp {5,2^32-2}; after joining the second track walks through all ten menu steps and the lead takes one more step. " +
 		"(3) NTP: seconds {1970-01-01T00:00:00, 2000-01-01T00:00:00, 2035-12-31T23:59:59, 2036-02-07T06:28:15 (last second of NTP era 0)} x nanoseconds: thorough ALL 10^9, quick every 1009th plus the first and last 20000. " +
@@ -116,6 +117,11 @@ func main() {
 			must(json.Unmarshal(r.Case, &c))
 			pinned(1, 1, func(_ int, clk *vclock) { e, _ = runLate(&c, clk) })
 			finishReplay("late", c, e)
+		case "late-rt":
+			var c lateRTCase
+			must(json.Unmarshal(r.Case, &c))
+			pinned(1, 1, func(_ int, clk *vclock) { e = runLateRT(&c, clk) })
+			finishReplay("late-rt", c, e)
 		case "ntp":
 			var c ntpCase
 			must(json.Unmarshal(r.Case, &c))
@@ -148,6 +154,7 @@ func main() {
 	if only == "" || only == "late" {
 		startPart("late-track")
 		partLate()
+		partLateRT()
 	}
 	if only == "" || only == "sr" {
 		startPart("sender-receiver")
